@@ -153,12 +153,40 @@ def _pf(v, ctx, trailing_comment=None):
     pretty_python_value(v.child, ctx)
     raise TypeError('flaky')
 
+class Both:
+    # claimed by two predicate printers; the first renders the child and then fails
+    def __init__(self, child): self.child = child
+    def __repr__(self): return 'Both(...)'
+
+def _both_first(v, ctx):
+    from prettyprinter.prettyprinter import pretty_python_value
+    pretty_python_value(v.child, ctx)
+    raise KeyError('late failure')
+
+def _both_second(v, ctx):
+    return pp.pretty_call(ctx, Both, v.child)
+
+pp.register_pretty(predicate=lambda v: isinstance(v, Both))(_both_first)
+pp.register_pretty(predicate=lambda v: isinstance(v, Both))(_both_second)
+
+class MyDict(dict):
+    pass
+
+class MyList(list):
+    pass
+
 def nest(f, n, base):
     v = base
     for _ in range(n): v = f(v)
     return v
 
 FAMS = {
+    # a value two predicate printers accept, the first of which fails after it rendered the child (the failure is contained at the value:
+    # one invocation per level, not one per accepting predicate per level)
+    'two_predicates_first_fails_late': (lambda n: nest(Both, n, 1), {}),
+    # nested instances of plain subclasses of the built-in containers (printed as Cls(<literal>): the literal is rendered once)
+    'nested_dict_subclass_instances': (lambda n: nest(lambda v: MyDict({'k': v}), n, 1), {}),
+    'nested_list_subclass_instances': (lambda n: nest(lambda v: MyList([v, 0]), n, 1), {}),
     # binary data: nearly every byte is written as a four-column escape, in a literal that has to be split
     'binary_bytes': (lambda n: [bytes(range(256)) * n], {}),
     'binary_bytes_nested': (lambda n: nest(lambda v: [v, bytes(range(128, 256)) * 2], n, b'\xff' * 50), {}),
@@ -303,7 +331,7 @@ def cost_section(tier, seed):
     stats = {'evaluations': tot, 'distinct_nontrivial': nt, 'families': len(rows), 'sizes': [base * m for m in mults],
              'ratio_limit': RATIO, 'rows': rows, 'mismatches': 0,
              'samples': [{'family': 'nested_dicts_3keys', 'steps': rows['nested_dicts_3keys']['steps']}],
-             'rule': 'LINE events inside /repo/prettyprinter (sys.monitoring) for %d families (incl. 20 measured in a fresh interpreter with the ipython_repr_pretty / dataclasses / attrs extras: nested _repr_pretty_ objects, unorderable dict keys whose repr is pretty_repr, nested dataclasses) at n = %s; a family fails if a doubling multiplies the step count by more than %.0f, '
+             'rule': 'LINE events inside /repo/prettyprinter (sys.monitoring) for %d families (incl. 23 measured in a fresh interpreter with the ipython_repr_pretty / dataclasses / attrs extras: nested _repr_pretty_ objects, unorderable dict keys whose repr is pretty_repr, nested dataclasses) at n = %s; a family fails if a doubling multiplies the step count by more than %.0f, '
                      'if the step budget is exceeded, or if steps exceed 4 x the calibrated constant x the model cost (printer invocations + machine and lookahead iterations); '
                      'non-trivial = families measured' % (len(rows), [base * m for m in mults], RATIO)}
     return stats, mism, fails
